@@ -1,5 +1,6 @@
 mod core;
 mod drive;
+mod edits;
 mod engines;
 mod libspace;
 mod oracle;
